@@ -43,6 +43,10 @@ type Step struct {
 type RibCfg struct {
 	Resolved bool // register a resolved-entry hook
 	Fwd      bool
+	// NoCheck: the RIB is created with DisableRIBCheckFn (no resolution or reference check at
+	// all: a plain keyed store). The model does not describe that configuration; what is judged
+	// there is what needs no model: contents = fold of the acknowledgements, notifications = contents
+	NoCheck bool
 	Pools    *Pools
 	Steps    int
 	// weights
@@ -593,12 +597,19 @@ func RunRibHistory(name string, cfg *RibCfg, steps []Step) (*Trace, error) {
 	t := &Trace{}
 	t.Add("begin %s", name)
 	var r *rib.RIB
-	if cfg.Fwd {
+	switch {
+	case cfg.NoCheck:
+		r = rib.New(cfg.Pools.NIs[0], rib.DisableRIBCheckFn())
+	case cfg.Fwd:
 		r = rib.New(cfg.Pools.NIs[0])
-	} else {
+	default:
 		r = rib.New(cfg.Pools.NIs[0], rib.DisableForwardReferences())
 	}
-	t.Add("rib.new %s fwd=%s", S(cfg.Pools.NIs[0]), B(cfg.Fwd))
+	if cfg.NoCheck {
+		t.Add("rib.new %s fwd=%s check=0", S(cfg.Pools.NIs[0]), B(cfg.Fwd))
+	} else {
+		t.Add("rib.new %s fwd=%s", S(cfg.Pools.NIs[0]), B(cfg.Fwd))
+	}
 	h := &hookRec{}
 	rr := &resRec{}
 	if cfg.Resolved {
